@@ -81,6 +81,36 @@ func init() {
 	register(&PropDef{
 		ID: "C01",
 		Gen: func(t *rapid.T, tier string) *world.Plan {
+			if rapid.IntRange(0, 5).Draw(t, "down-during-payment") == 0 {
+				// focused: a correct opening is confirmed, the taker's first claim payment is in
+				// flight (and will fail later) when the taker stops; while it is down the chain
+				// reorganises deeper than the confirmation requirement and the opening returns to
+				// the mempool; the restarted taker must look at the chain again before paying
+				p := advMakerPlan(t, nil, false)
+				p.Crashes, p.Net, p.Chain = nil, nil, nil
+				cfg := p.AdvCfg
+				need := 3
+				if cfg.Chain == "lbtc" {
+					need = 2
+				}
+				cfg.ConfirmNow = need + rapid.IntRange(0, 1).Draw(t, "extraconf")
+				cfg.AnnounceDelayMs, cfg.AnnounceFirst, cfg.Reannounce = 0, false, 0
+				p.Scn.BlockEverySec = pick(t, "blockevery2", []int{20, 60})
+				if cfg.Chain == "lbtc" {
+					p.Scn.LBlockEverySec = p.Scn.BlockEverySec
+				}
+				p.Scn.LNLatencyMs = 200
+				p.Scn.DurationSec = 600
+				first := 1
+				if len(p.Ops) > 0 {
+					first = 2 // swap-out: attempt 1 is the fee payment
+				}
+				p.LN = []world.LNFault{{Idx: first, Kind: "fail", DelayMs: pick(t, "faildelay", []int{15000, 30000})}}
+				crashAt := pick(t, "crashat2", []int{4000, 6000, 9000, 12000})
+				p.Ops = append(p.Ops, world.Op{AtMs: crashAt, Node: 0, Kind: "crash", N: int64(pick(t, "down", []int{40000, 70000}))})
+				p.Chain = append(p.Chain, world.ChainEv{AtMs: crashAt + 2000, Chain: cfg.Chain, Kind: "reorg-deep-ifdown", N: cfg.ConfirmNow + rapid.IntRange(0, 2).Draw(t, "deeper"), Node: 0})
+				return p
+			}
 			return advMakerPlan(t, nil, rapid.IntRange(0, 4).Draw(t, "honest") != 0)
 		},
 		Monitors: world.MonitorsFor("C01"),
